@@ -26,6 +26,7 @@ CONSTANTS MaxCalls,      \* number of API calls issued by the host in MC
           AllowDestroy,  \* environment may Destroy (close host socket + kill init) at any time
           AllowCrash,    \* environment may kill init / the host process at any time
           FixEatKill,    \* TRUE: init consumes the host's kill after an exec error that follows the ack
+          ReapOnRefusal, \* TRUE: the sync-after-exec refusal path also runs the wait-all pass (as the code does)
           FixDonePrio    \* TRUE: sendCmd / recvReply look at c.done before the two-way select
                          \* (FALSE/FALSE is the code as found; both were repaired with fix: commits)
 
@@ -55,11 +56,12 @@ VARIABLES
   scall,              \* ghost: call id the server believes it is serving
   sSyncAfter, sSynced,
   child,              \* "none" | "atsync" | "acked" | "running" | "dead"   (the sandboxed program)
+  desc,               \* its descendants inside the namespace: "none" | "alive" | "zombie" (killed, not yet reaped by init)
   bad                 \* ghost: set of protocol violations observed
 
 hostV == <<hpc, call, hop, hret, hres, ctx, hSendCh, hRecvCh, hSL, hRL, hDone, hostAlive>>
 netV  == <<h2c, c2h, sockH, sockC>>
-contV == <<cSendCh, cRecvCh, cSL, cRL, cDone, spc, scont, scall, sSyncAfter, sSynced, child>>
+contV == <<cSendCh, cRecvCh, cSL, cRL, cDone, spc, scont, scall, sSyncAfter, sSynced, child, desc>>
 vars  == <<hostV, netV, contV, bad>>
 
 Cmd(k, c, sa) == [t |-> "cmd", k |-> k, call |-> c, sa |-> sa, big |-> FALSE]
@@ -73,7 +75,7 @@ Init ==
   /\ h2c = <<>> /\ c2h = <<>> /\ sockH = "open" /\ sockC = "open"
   /\ cSendCh = <<>> /\ cRecvCh = <<>> /\ cSL = <<"idle">> /\ cRL = <<"idle">> /\ cDone = FALSE
   /\ spc = "serve" /\ scont = "" /\ scall = 0 /\ sSyncAfter = FALSE /\ sSynced = FALSE
-  /\ child = "none" /\ bad = {}
+  /\ child = "none" /\ desc = "none" /\ bad = {}
 
 -----------------------------------------------------------------------------
 (* Host API goroutine.  Every API function holds c.mu, so calls are sequential. *)
@@ -241,28 +243,28 @@ Alive == spc # "dead"          \* the init process exists ("exiting": serve has 
 ContRLRecv ==
   /\ Alive /\ cRL = <<"idle">> /\ sockC = "open" /\ Len(h2c) > 0
   /\ cRL' = <<"hold", Head(h2c)>> /\ h2c' = Tail(h2c)
-  /\ UNCHANGED <<hostV, c2h, sockH, sockC, cSendCh, cRecvCh, cSL, cDone, spc, scont, scall, sSyncAfter, sSynced, child, bad>>
+  /\ UNCHANGED <<hostV, c2h, sockH, sockC, cSendCh, cRecvCh, cSL, cDone, spc, scont, scall, sSyncAfter, sSynced, child, desc, bad>>
 ContRLErr ==
   /\ Alive /\ cRL = <<"idle">> /\ sockH = "closed" /\ Len(h2c) = 0
   /\ cDone' = TRUE /\ cRL' = <<"exit">>
-  /\ UNCHANGED <<hostV, netV, cSendCh, cRecvCh, cSL, spc, scont, scall, sSyncAfter, sSynced, child, bad>>
+  /\ UNCHANGED <<hostV, netV, cSendCh, cRecvCh, cSL, spc, scont, scall, sSyncAfter, sSynced, child, desc, bad>>
 ContRLPush ==
   /\ Alive /\ cRL[1] = "hold" /\ Len(cRecvCh) = 0
   /\ cRecvCh' = <<cRL[2]>> /\ cRL' = <<"idle">>
-  /\ UNCHANGED <<hostV, netV, cSendCh, cSL, cDone, spc, scont, scall, sSyncAfter, sSynced, child, bad>>
+  /\ UNCHANGED <<hostV, netV, cSendCh, cSL, cDone, spc, scont, scall, sSyncAfter, sSynced, child, desc, bad>>
 
 ContSLTake ==
   /\ Alive /\ cSL = <<"idle">> /\ Len(cSendCh) = 1
   /\ cSL' = <<"hold", cSendCh[1]>> /\ cSendCh' = <<>>
-  /\ UNCHANGED <<hostV, netV, cRecvCh, cRL, cDone, spc, scont, scall, sSyncAfter, sSynced, child, bad>>
+  /\ UNCHANGED <<hostV, netV, cRecvCh, cRL, cDone, spc, scont, scall, sSyncAfter, sSynced, child, desc, bad>>
 ContSLSend ==                                   \* SendMsg ok; rep.Done is closed afterwards (cSL = "sent")
   /\ Alive /\ cSL[1] = "hold" /\ sockH = "open"
   /\ c2h' = Append(c2h, cSL[2]) /\ cSL' = <<"sent">>
-  /\ UNCHANGED <<hostV, h2c, sockH, sockC, cSendCh, cRecvCh, cRL, cDone, spc, scont, scall, sSyncAfter, sSynced, child, bad>>
+  /\ UNCHANGED <<hostV, h2c, sockH, sockC, cSendCh, cRecvCh, cRL, cDone, spc, scont, scall, sSyncAfter, sSynced, child, desc, bad>>
 ContSLErr ==
   /\ Alive /\ cSL[1] = "hold" /\ sockH = "closed"
   /\ cDone' = TRUE /\ cSL' = <<"exit">>
-  /\ UNCHANGED <<hostV, netV, cSendCh, cRecvCh, cRL, spc, scont, scall, sSyncAfter, sSynced, child, bad>>
+  /\ UNCHANGED <<hostV, netV, cSendCh, cRecvCh, cRL, spc, scont, scall, sSyncAfter, sSynced, child, desc, bad>>
 
 -----------------------------------------------------------------------------
 (* Init server goroutine: serve / handleCmd / handleExecve / handleExecveStarted *)
@@ -272,10 +274,10 @@ SSend(k, cont) == Len(cSendCh) = 0 /\ cSendCh' = <<Reply(k, scall)>> /\ spc' = "
 SSendC(k, c, cont) == Len(cSendCh) = 0 /\ cSendCh' = <<Reply(k, c)>> /\ spc' = "S" /\ scont' = cont
 Goto(p) == spc' = p /\ UNCHANGED <<scont, cSendCh>>
 \* init exits: the whole pid namespace (the sandboxed program included) dies with it
-Die == /\ spc' = "dead" /\ sockC' = "closed" /\ child' = (IF child = "none" THEN "none" ELSE "dead")
+Die == /\ spc' = "dead" /\ sockC' = "closed" /\ child' = (IF child = "none" THEN "none" ELSE "dead") /\ desc' = "none"
        /\ UNCHANGED <<scont, cSendCh>>
 \* serve() returns an error: Init's deferred function will call os.Exit (InitExit)
-Quit == spc' = "exiting" /\ UNCHANGED <<scont, cSendCh, sockC, child>>
+Quit == spc' = "exiting" /\ UNCHANGED <<scont, cSendCh, sockC, child, desc>>
 InitExit ==
   /\ spc = "exiting" /\ Die
   /\ UNCHANGED <<hostV, h2c, c2h, sockH, cRecvCh, cSL, cRL, cDone, scall, sSyncAfter, sSynced, bad>>
@@ -283,7 +285,7 @@ InitExit ==
 ContSendDone ==                                 \* <-done (reply written)
   /\ spc = "S" /\ cSL = <<"sent">>
   /\ cSL' = <<"idle">> /\ Goto(scont)
-  /\ UNCHANGED <<hostV, netV, cRecvCh, cRL, cDone, scall, sSyncAfter, sSynced, child, bad>>
+  /\ UNCHANGED <<hostV, netV, cRecvCh, cRL, cDone, scall, sSyncAfter, sSynced, child, desc, bad>>
 ContSendFail ==                                 \* <-c.done while sending
   /\ spc = "S" /\ cDone /\ Quit
   /\ UNCHANGED <<hostV, netV, cRecvCh, cSL, cRL, cDone, scall, sSyncAfter, sSynced, bad>>
@@ -303,14 +305,14 @@ ContServeSimple(r) ==
                  [] m.k = "conf"                -> {"ack", "die"}
                  [] OTHER                       -> {"ack", "err"})
      /\ IF r = "die" THEN Quit
-        ELSE SSendC(r, m.call, "serve") /\ UNCHANGED <<sockC, child>>
+        ELSE SSendC(r, m.call, "serve") /\ UNCHANGED <<sockC, child, desc>>
   /\ UNCHANGED <<hostV, h2c, c2h, sockH, cSL, cRL, cDone, sSyncAfter, sSynced, bad>>
 ContServeExec ==
   /\ spc = "serve" /\ Len(cRecvCh) = 1 /\ cRecvCh[1].k = "exec"
   /\ cRecvCh' = <<>> /\ scall' = cRecvCh[1].call
   /\ sSyncAfter' = cRecvCh[1].sa /\ sSynced' = FALSE
   /\ Goto("x_prefork")
-  /\ UNCHANGED <<hostV, netV, cSL, cRL, cDone, child, bad>>
+  /\ UNCHANGED <<hostV, netV, cSL, cRL, cDone, child, desc, bad>>
 ContServeBad ==                                 \* ok / kill arriving in serve: "unknown command" -> init exits
   /\ spc = "serve" /\ Len(cRecvCh) = 1 /\ cRecvCh[1].k \notin AllOps
   /\ cRecvCh' = <<>> /\ scall' = cRecvCh[1].call
@@ -320,18 +322,18 @@ ContServeBad ==                                 \* ok / kill arriving in serve: 
 
 ContPreforkErr ==                               \* nil cmd / missing fd / lookPath error: error reply, back to serve
   /\ spc = "x_prefork" /\ SSend("err", "serve")
-  /\ UNCHANGED <<hostV, netV, cRecvCh, cSL, cRL, cDone, scall, sSyncAfter, sSynced, child, bad>>
+  /\ UNCHANGED <<hostV, netV, cRecvCh, cSL, cRL, cDone, scall, sSyncAfter, sSynced, child, desc, bad>>
 ContFork ==
-  /\ spc = "x_prefork" /\ child' = "atsync" /\ Goto("x_start")
+  /\ spc = "x_prefork" /\ child' = "atsync" /\ UNCHANGED desc /\ Goto("x_start")
   /\ UNCHANGED <<hostV, netV, cRecvCh, cSL, cRL, cDone, scall, sSyncAfter, sSynced, bad>>
 ContStartErrEarly ==                            \* Start fails before the sync point (or anywhere when SyncAfter)
-  /\ spc = "x_start" /\ child' = "none" /\ SSend("err", "serve")
+  /\ spc = "x_start" /\ child' = "none" /\ UNCHANGED desc /\ SSend("err", "serve")
   /\ UNCHANGED <<hostV, netV, cRecvCh, cSL, cRL, cDone, scall, sSyncAfter, sSynced, bad>>
 ContStartSync ==                                \* sync-before: child parked at the sync point, pid reply
-  /\ spc = "x_start" /\ ~sSyncAfter /\ SSend("pid", "x_syncwait") /\ UNCHANGED child
+  /\ spc = "x_start" /\ ~sSyncAfter /\ SSend("pid", "x_syncwait") /\ UNCHANGED <<child, desc>>
   /\ UNCHANGED <<hostV, netV, cRecvCh, cSL, cRL, cDone, scall, sSyncAfter, sSynced, bad>>
 ContStartAfter ==                               \* sync-after: program already runs, then syncPid(1)
-  /\ spc = "x_start" /\ sSyncAfter /\ child' = "running" /\ SSend("pid", "x_syncwait")
+  /\ spc = "x_start" /\ sSyncAfter /\ child' = "running" /\ UNCHANGED desc /\ SSend("pid", "x_syncwait")
   /\ UNCHANGED <<hostV, netV, cRecvCh, cSL, cRL, cDone, scall, sSyncAfter, sSynced, bad>>
 
 WrongState(m, ks) == IF m.call # scall \/ m.k \notin ks THEN {"cmd_in_wrong_state"} ELSE {}
@@ -343,41 +345,47 @@ ContSyncGot ==                                  \* syncPid: recvCmd; kill => err
      /\ bad' = bad \cup WrongState(m, {"ok", "kill"})
      /\ IF m.k = "kill"
           THEN /\ child' = "none" /\ UNCHANGED sSynced
-               /\ IF sSyncAfter THEN SSend("result", "serve")     \* kill(-1), wait, result reply
-                                ELSE Goto("x_startfail")           \* syncFunc error: Start kills the child and fails
+               /\ IF sSyncAfter                                   \* kill(-1), wait main, result reply, wait-all
+                    THEN /\ SSend("result", "serve")
+                         /\ desc' = (IF desc = "none" THEN "none" ELSE IF ReapOnRefusal THEN "none" ELSE "zombie")
+                    ELSE Goto("x_startfail") /\ UNCHANGED desc     \* syncFunc error: Start kills the child and fails
           ELSE /\ sSynced' = TRUE
-               /\ IF sSyncAfter THEN UNCHANGED child /\ Goto("x_started")
-                                ELSE child' = "acked" /\ Goto("x_exec")
+               /\ IF sSyncAfter THEN UNCHANGED <<child, desc>> /\ Goto("x_started")
+                                ELSE child' = "acked" /\ UNCHANGED desc /\ Goto("x_exec")
   /\ UNCHANGED <<hostV, netV, cSL, cRL, cDone, scall, sSyncAfter>>
 
 ContStartFailed ==                              \* Start returned the sync error: error reply, back to serve
   /\ spc = "x_startfail" /\ SSend("err", "serve")
-  /\ UNCHANGED <<hostV, netV, cRecvCh, cSL, cRL, cDone, scall, sSyncAfter, sSynced, child, bad>>
+  /\ UNCHANGED <<hostV, netV, cRecvCh, cSL, cRL, cDone, scall, sSyncAfter, sSynced, child, desc, bad>>
 ContExecOk ==
-  /\ spc = "x_exec" /\ child' = "running" /\ Goto("x_started")
+  /\ spc = "x_exec" /\ child' = "running" /\ UNCHANGED desc /\ Goto("x_started")
   /\ UNCHANGED <<hostV, netV, cRecvCh, cSL, cRL, cDone, scall, sSyncAfter, sSynced, bad>>
 ContExecErr ==                                  \* execve fails after the ack (ENOEXEC, ...): error reply, then eat the kill
-  /\ spc = "x_exec" /\ child' = "none" /\ SSend("err", IF FixEatKill THEN "x_eatkill" ELSE "serve")
+  /\ spc = "x_exec" /\ child' = "none" /\ UNCHANGED desc /\ SSend("err", IF FixEatKill THEN "x_eatkill" ELSE "serve")
   /\ UNCHANGED <<hostV, netV, cRecvCh, cSL, cRL, cDone, scall, sSyncAfter, sSynced, bad>>
 ContEatKill ==
   /\ spc = "x_eatkill" /\ Len(cRecvCh) = 1
   /\ bad' = bad \cup WrongState(cRecvCh[1], {"kill"})
   /\ cRecvCh' = <<>> /\ Goto("serve")
-  /\ UNCHANGED <<hostV, netV, cSL, cRL, cDone, scall, sSyncAfter, sSynced, child>>
+  /\ UNCHANGED <<hostV, netV, cSL, cRL, cDone, scall, sSyncAfter, sSynced, child, desc>>
 
 ChildExit ==                                    \* environment: the program ends on its own
-  /\ child = "running" /\ child' = "dead"
+  /\ child = "running" /\ child' = "dead" /\ UNCHANGED desc
   /\ UNCHANGED <<hostV, netV, cSendCh, cRecvCh, cSL, cRL, cDone, spc, scont, scall, sSyncAfter, sSynced, bad>>
+
+ChildForks ==                                   \* environment: the running program creates descendants
+  /\ child = "running" /\ desc = "none" /\ desc' = "alive"
+  /\ UNCHANGED <<hostV, netV, cSendCh, cRecvCh, cSL, cRL, cDone, spc, scont, scall, sSyncAfter, sSynced, child, bad>>
 
 \* handleExecveStarted: select { <-done ; <-recvCh (kill) ; <-waitPidResult }
 ContStartedKill ==
   /\ spc = "x_started" /\ Len(cRecvCh) = 1
   /\ bad' = bad \cup WrongState(cRecvCh[1], {"kill"})
-  /\ cRecvCh' = <<>> /\ child' = "none" /\ SSend("result", "serve")
+  /\ cRecvCh' = <<>> /\ child' = "none" /\ desc' = "none" /\ SSend("result", "serve")       \* kill(-1), wait-all
   /\ UNCHANGED <<hostV, netV, cSL, cRL, cDone, scall, sSyncAfter, sSynced>>
 ContStartedChild ==
   /\ spc = "x_started" /\ child = "dead"
-  /\ child' = "none" /\ SSend("result", "x_eatkill")
+  /\ child' = "none" /\ desc' = "none" /\ SSend("result", "x_eatkill")                     \* kill(-1), wait-all
   /\ UNCHANGED <<hostV, netV, cRecvCh, cSL, cRL, cDone, scall, sSyncAfter, sSynced, bad>>
 
 -----------------------------------------------------------------------------
@@ -417,7 +425,7 @@ ContSrvNext ==
   \/ ContPreforkErr \/ ContFork \/ ContStartErrEarly \/ ContStartSync \/ ContStartAfter
   \/ InitExit \/ ContStartFailed
   \/ ContSyncGot \/ ContExecOk \/ ContExecErr \/ ContEatKill \/ ContStartedKill \/ ContStartedChild
-EnvNext == ChildExit \/ CtxCancel \/ DestroyClose \/ InitKilled \/ HostCrash \/ Pdeathsig
+EnvNext == ChildExit \/ ChildForks \/ CtxCancel \/ DestroyClose \/ InitKilled \/ HostCrash \/ Pdeathsig
 
 SysNext == HostApiNext \/ HostLoopNext \/ ContLoopNext \/ ContSrvNext
 Next == SysNext \/ EnvNext
@@ -456,4 +464,7 @@ HostDeathKillsAll == [](~hostAlive => <>(spc = "dead" /\ child \in {"none", "dea
 \* C11/C12: after Destroy closed the socket and init was killed nothing is left
 \* (child is dead whenever init is dead -- by construction of Die: kernel pid-namespace semantics)
 NoOrphan == spc = "dead" => child \in {"none", "dead"}
+\* C12: whenever init is ready for the next command nothing of the previous program is left in the
+\* namespace -- no live descendant, no zombie child of init
+ReapedAtServe == spc = "serve" => desc = "none" /\ child = "none"
 =============================================================================
